@@ -152,7 +152,19 @@ POLICIES = {
     "large_refused": {"accept_large_fo": 0},
     "all_fo_refused": {"accept_large_fo": 0, "accept_std_fo": 0},
     "session_refused": {"accept_session": 0},
+    "fclose_refused": {},          # the Forward Close is answered with a service error (twice)
 }
+POLICY_INJECT = {"fclose_refused": [[0, 0x4E, 1, 0x0107], [0, 0x4E, 8]]}
+BASE_POLICIES = ["large_ok", "large_refused", "all_fo_refused", "session_refused"]
+
+RAISE_KINDS = [True, "comm", "response", "request", "data"]     # what the body of a with statement raises itself
+
+
+def body_exception(kind):
+    """the exception instance the body raises: a non-library one, or a library class (user code, or a
+    pycomm3 call that fails without touching the transport)"""
+    from pycomm3 import exceptions as X
+    return {"comm": X.CommError, "response": X.ResponseError, "request": X.RequestError, "data": X.DataError}.get(kind, BodyError)("raised by the body")
 
 # message-router requests used by generic_message: (kwargs of the call, message bytes = service + path + data)
 ECHO = (dict(service=0x4B, class_code=0x300, instance=1, request_data=b"abcdefgh"), bytes.fromhex("4b03210000032401") + b"abcdefgh")
@@ -308,18 +320,18 @@ def run_impl(tp, case):
         route = [PADDED_EPATH.encode([seg]) for seg in drv._cfg["cip_path"]]
 
         def do_sop(o):
-            """-> (resolved op, outcome)"""
+            """-> (resolved op, outcome, the exception that escaped or None)"""
             k = o[0]
             try:
                 if k == "open":
                     r = drv.open()
-                    return o, ("bool", 1 if r else 0)
+                    return o, ("bool", 1 if r else 0), None
                 if k == "close":
                     drv.close()
-                    return o, ("none",)
+                    return o, ("none",), None
                 if k == "gc":
                     t = drv.generic_message(**REQS[o[1]][0])
-                    return o, ("tag", 1 if t else 0)
+                    return o, ("tag", 1 if t else 0), None
                 if k == "gu":
                     # o[2]: False -> route_path=False; True -> the default route_path=True (nothing is appended
                     # since the fix of F13); "us" -> unconnected_send=True (message wrapped, the route inside)
@@ -334,9 +346,10 @@ def run_impl(tp, case):
                         kw = dict(route_path=True if o[2] else False)
                     o = ("gu", o[1], o[2], msg)
                     t = drv.generic_message(connected=False, **kw, **REQS[o[1]][0])
-                    return o, ("tag", 1 if t else 0)
+                    return o, ("tag", 1 if t else 0), None
                 if k == "call":
                     n0 = len(fs.attempts)
+                    exc = None
                     try:
                         if o[1] == "read":
                             r = drv.read(*o[2])
@@ -344,21 +357,21 @@ def run_impl(tp, case):
                             r = drv.write(*o[2])
                         out = ("tags",)
                     except Exception as e:  # noqa: BLE001
-                        out = exc_code(e)
+                        out, exc = exc_code(e), e
                     items = [(int.from_bytes(f[44:46], "little"), f[46:]) for f in fs.attempts[n0:] if f[:2] == b"\x70\x00"]
                     seq_after = (cs.last + 1) if cs.last is not None else 1
-                    return ("call", o[1], o[2], items, seq_after), out
+                    return ("call", o[1], o[2], items, seq_after), out, exc
                 raise ValueError(o)
             except Exception as e:  # noqa: BLE001
                 if k == "gu" and len(o) == 3:
                     o = ("gu", o[1], o[2], REQS[o[1]][1])
-                return o, exc_code(e)
+                return o, exc_code(e), e
 
         for o in case["ops"]:
             ev0 = len(fs.events)
             fired0 = fs.fired
             if o[0] != "with":
-                ro, out = do_sop(o)
+                ro, out, _ = do_sop(o)
                 resolved.append(ro)
                 s = snapshot(drv, tp, fs, ev0)
                 s.update(out=list(out), op=o[0], fired=fs.fired - fired0)
@@ -366,40 +379,37 @@ def run_impl(tp, case):
                 continue
             body_res = []
             inner = []
+            entered = False
+            raised = None
             try:
                 with drv:
+                    entered = True
                     for so in o[1]:
-                        ro, out = do_sop(so)
+                        ro, out, exc = do_sop(so)
                         body_res.append(ro)
                         s = snapshot(drv, tp, fs, ev0)
                         s.update(out=list(out), op=so[0], fired=fs.fired - fired0, inner=True)
                         inner.append(s)
                         ev0 = len(fs.events)
                         fired0 = fs.fired
-                        if out[0] == "err":
-                            raise _Reraise(out)
+                        if exc is not None:
+                            raise exc               # the statement's own exception propagates out of the body
                     if o[2]:
-                        raise BodyError("body")
+                        raised = body_exception(o[2])
+                        raise raised
                 final = ("none",)
-            except _Reraise as e:
-                final = e.out
             except Exception as e:  # noqa: BLE001
-                final = exc_code(e)
+                final = ("user",) if e is raised else exc_code(e)
             # a with statement whose body did not start: the body ops are not resolved
             body_res += [((so[0], so[1], so[2], REQS[so[1]][1]) if so[0] == "gu" else (("call", so[1], so[2], [], 1) if so[0] == "call" else so))
                          for so in o[1][len(body_res):]]
             resolved.append(("with", body_res, o[2]))
             obs.extend(inner)
             s = snapshot(drv, tp, fs, ev0)
-            s.update(out=list(final), op="with", fired=fs.fired - fired0)
+            s.update(out=list(final), op="with", fired=fs.fired - fired0, entered=entered)
             obs.append(s)
     log = [str(x) if isinstance(x, fw.Sym) else x for x in tp.ask("dump log 0")[2:]]
     return obs, resolved, route, used, log, fs
-
-
-class _Reraise(Exception):
-    def __init__(self, out):
-        self.out = out
 
 
 # ------------------------------------------------------------------ the model side
@@ -532,7 +542,7 @@ def oracle(R, case, obs, fs, tp_log, label):
                 R.fail("a call raised an exception that is not a PycommError", brief, {"call": i, "op": o["op"], "exception": out[1]},
                        "PycommError subclass or falsy Tag", f"foreign-exception:{o['op']}" + cls_suffix)
         if o["op"] in ("close", "with"):
-            if o["op"] == "with" and not any(ev[0] == "q" for ev in o["events"]) and out[0] == "err":
+            if o["op"] == "with" and not o.get("entered", True):
                 pass          # __enter__ raised: __exit__ (close) never ran
             else:
                 if o["st"][0] != 0:
@@ -619,6 +629,7 @@ def run_real_case(R, tp, seed):
     sc = S.gen_scenario(rng, n_tags=rng.randrange(3, 12))
     policy = rng.choice(list(POLICIES))
     cfg = dict(POLICIES[policy])
+    inject = [list(i) for i in POLICY_INJECT.get(policy, [])]
     flt = {}
     for _f in range(rng.choice([0, 1, 1, 1, 2])):
         key = rng.choice(["connect", "send", "send_after", "recv", "drop_reply", "vanish", "close"])
@@ -635,17 +646,19 @@ def run_real_case(R, tp, seed):
     pool = [("open",), ("close",), ("gc", "echo"), ("gu", "echo", False)]
     pool += [("read", tuple(reads[:k])) for k in (1, 2, 4) if len(reads) >= k]
     pool += [("write", tuple(writes[:k])) for k in (1, 2) if len(writes) >= k]
-    pool += [("with", [pool[rng.randrange(2, len(pool))]], rng.random() < 0.3) for _ in range(2)]
+    pool += [("with", [pool[rng.randrange(2, len(pool))]], rng.choice([False, False] + RAISE_KINDS)) for _ in range(2)]
     ops = [rng.choice(pool) for _ in range(rng.randrange(2, 8))]
     if rng.random() < 0.8 and ops[0][0] != "with":
         ops[0] = ("open",)
-    case = {"logix": True, "path": "10.0.0.1", "policy": policy, "cfg": cfg, "inject": [], "faults": flt, "ops": ops, "seed": seed,
+    case = {"logix": True, "path": "10.0.0.1", "policy": policy, "cfg": cfg, "inject": inject, "faults": flt, "ops": ops, "seed": seed,
             "real_tags": True}
     tp.reset()
     tp.lines(sc.cfg_lines())
     tp.lines(sc.lines())
     for k, v in cfg.items():
         tp.ask(f"cfg {k} {T._tok(v)}")
+    for inj in inject:
+        tp.inject(*inj)
     rs = rand_stream(seed)
     obs = []
     with mock.patch.object(cd, "urandom", lambda n: next(rs)):
@@ -655,51 +668,52 @@ def run_real_case(R, tp, seed):
         def do(o):
             try:
                 if o[0] == "open":
-                    return ("bool", 1 if drv.open() else 0)
+                    return ("bool", 1 if drv.open() else 0), None
                 if o[0] == "close":
                     drv.close()
-                    return ("none",)
+                    return ("none",), None
                 if o[0] == "gc":
-                    return ("tag", 1 if drv.generic_message(**REQS[o[1]][0]) else 0)
+                    return ("tag", 1 if drv.generic_message(**REQS[o[1]][0]) else 0), None
                 if o[0] == "gu":
-                    return ("tag", 1 if drv.generic_message(connected=False, route_path=False, **REQS[o[1]][0]) else 0)
+                    return ("tag", 1 if drv.generic_message(connected=False, route_path=False, **REQS[o[1]][0]) else 0), None
                 if o[0] == "read":
                     drv.read(*o[1])
-                    return ("tags",)
+                    return ("tags",), None
                 if o[0] == "write":
                     drv.write(*o[1])
-                    return ("tags",)
+                    return ("tags",), None
                 raise ValueError(o)
             except Exception as e:  # noqa: BLE001
-                return exc_code(e)
+                return exc_code(e), e
 
         for o in ops:
             ev0, fired0 = len(fs.events), fs.fired
             if o[0] != "with":
-                out = do(o)
+                out, _ = do(o)
                 s = snapshot(drv, tp, fs, ev0)
                 s.update(out=list(out), op=o[0], fired=fs.fired - fired0)
                 obs.append(s)
                 continue
+            entered, raised = False, None
             try:
                 with drv:
+                    entered = True
                     for so in o[1]:
-                        out = do(so)
+                        out, exc = do(so)
                         s = snapshot(drv, tp, fs, ev0)
                         s.update(out=list(out), op=so[0], fired=fs.fired - fired0, inner=True)
                         obs.append(s)
                         ev0, fired0 = len(fs.events), fs.fired
-                        if out[0] == "err":
-                            raise _Reraise(out)
+                        if exc is not None:
+                            raise exc
                     if o[2]:
-                        raise BodyError("body")
+                        raised = body_exception(o[2])
+                        raise raised
                 final = ("none",)
-            except _Reraise as e:
-                final = e.out
             except Exception as e:  # noqa: BLE001
-                final = exc_code(e)
+                final = ("user",) if e is raised else exc_code(e)
             s = snapshot(drv, tp, fs, ev0)
-            s.update(out=list(final), op="with", fired=fs.fired - fired0)
+            s.update(out=list(final), op="with", fired=fs.fired - fired0, entered=entered)
             obs.append(s)
     def brief(o):
         if o[0] in ("read", "write"):
@@ -732,7 +746,8 @@ def more_ops(logix, rng):
     """a wider alphabet for the random histories"""
     a = alphabet(logix) + [("gc", "set"), ("gc", "get"), ("gu", "get", False), ("gu", "plcname", False), ("gc", "plcname"), ("gc", "short"),
                            ("gu", "echo", True), ("gu", "echo", "us"), ("gu", "ident", "us"), ("with", [("open",), ("gc", "echo"), ("close",), ("gu", "echo", False)], False),
-                           ("with", [("gc", "noobj"), ("gc", "echo")], True), ("with", [], False), ("with", [], True)]
+                           ("with", [("gc", "noobj"), ("gc", "echo")], rng.choice(RAISE_KINDS)), ("with", [], False),
+                           ("with", [], rng.choice(RAISE_KINDS)), ("with", [("gc", "echo")], rng.choice(RAISE_KINDS))]
     if logix:
         a += [("call", "read", ("t1", "t2")), ("call", "write", (("t1", 5),)), ("call", "read", ("nosuch",)),
               ("with", [("call", "read", ("t1",))], False)]
@@ -742,6 +757,7 @@ def more_ops(logix, rng):
 def mk_case(logix, policy, ops, faults=None, seed=1, path=None, inject=(), extra_cfg=None):
     cfg = dict(POLICIES[policy])
     cfg.update(extra_cfg or {})
+    inject = list(inject) + POLICY_INJECT.get(policy, [])
     return {"logix": logix, "path": path or IP, "policy": policy, "cfg": cfg, "inject": [list(i) for i in inject],
             "faults": faults or {}, "ops": list(ops), "seed": seed}
 
@@ -787,7 +803,7 @@ def case_from_json(c):
     def op(o):
         o = list(o)
         if o[0] == "with":
-            return ("with", [op(x) for x in o[1]], bool(o[2]))
+            return ("with", [op(x) for x in o[1]], o[2] if isinstance(o[2], str) else bool(o[2]))
         if o[0] == "call":
             return ("call", o[1], tuple(tuple(a) if isinstance(a, list) else a for a in o[2]))
         return tuple(o)
@@ -799,27 +815,51 @@ def case_from_json(c):
 
 
 def run(R, escalate=False):
+    import time
     logging.disable(logging.CRITICAL)
     thorough = R.tier == "thorough" or escalate
     rng = R.rng
+    t0 = time.time()
+    # the big generators are capped by TIME: a share of the harness budget bin/check enforces
+    budget = 0.62 * float(os.environ.get("VERIF_HARNESS_TIMEOUT", "900" if R.tier == "quick" else "5400"))
+
+    def left(share):
+        return time.time() - t0 < share * budget
+
     R.rule = ("call histories over {open, close, generic_message connected (echo / error reply) and unconnected, with-block with and without "
               "exception, read (LogixDriver) / unconnected with route (CIPDriver)} x {CIPDriver, LogixDriver(init_tags=False)} x policies {large FO ok, "
-              "large refused, all FO refused, session refused}: all histories up to length 3 (thorough: 4, one policy drawn per length-4 history) without fault, single faults at "
-              "every socket call position of sampled (thorough: all length<=3, sampled length 4) histories, random longer histories over a wider "
-              "alphabet with 0-2 faults, error injections, routes, expected-route refusals; non-trivial = distinct case in which at least one frame reached the target")
+              "large refused, all FO refused, session refused, Forward Close refused}: all histories up to length 3 (thorough: 4, one policy drawn per "
+              "length-4 history) without fault; with-blocks whose body raises each exception class (CommError / ResponseError / RequestError / DataError / "
+              "a non-library one, raised by a failing request or by the body itself) under every policy; single faults at every socket call position of "
+              "sampled (thorough: all length<=3) histories; random longer histories over a wider alphabet with 0-2 faults, error injections, routes, "
+              "expected-route refusals; real tag reads/writes against the whole target (oracle only); the big generators stop when their share of the "
+              "time budget is used; non-trivial = distinct case in which at least one frame reached the target")
     tp = T.TargetProc("targetcore")
     mp = fw.ModelProc("C10")
     try:
         for c in load_corpus():
             run_case(R, tp, mp, c, "corpus")
             R.count("source", "corpus")
-        maxlen = 4 if thorough else 3
         seed = 0
-        base_runs = []          # (case, socket counters) of fault-free runs, for the fault stage
+        # with-blocks: every exception class the body can end with x every policy x what precedes / follows
         for logix in (False, True):
-            alpha = alphabet(logix)
-            for n in range(1, maxlen + 1):
+            for pol in POLICIES:
+                for body in ([], [("gc", "echo")], [("gu", "echo", False)], [("gc", "noobj")]):
+                    for kind in [False] + RAISE_KINDS:
+                        for pre in ([], [("open",)]):
+                            for post in ([], [("open",)]):
+                                seed += 1
+                                case = mk_case(logix, pol, pre + [("with", list(body), kind)] + post, seed=seed)
+                                run_case(R, tp, mp, case, "with-raises")
+                                R.count("source", "with-raises")
+                                R.count("with_raises", str(kind))
+        base_runs = []          # (case, socket counters) of fault-free runs, for the fault stage
+        for n in range(1, (4 if thorough else 3) + 1):
+            for logix in (False, True):
+                alpha = alphabet(logix)
                 for hist in itertools.product(alpha, repeat=n):
+                    if n > 3 and not left(0.3):
+                        break
                     pols = list(POLICIES) if n <= 3 else [rng.choice(list(POLICIES))]
                     for pol in pols:
                         seed += 1
@@ -831,11 +871,15 @@ def run(R, escalate=False):
         R.exhaustive = True
         # single faults
         if thorough:
-            chosen = base_runs
+            chosen = list(base_runs)
+            rng.shuffle(chosen)            # the time cap may cut this stage: spread what is covered
         else:
             short = [b for b in base_runs if len(b[0]["ops"]) <= 2]
-            chosen = rng.sample(short, min(len(short), 200)) + rng.sample(base_runs, 300)
+            chosen = rng.sample(short, min(len(short), 150)) + rng.sample(base_runs, 200)
         for case, (nc, ns, nr, ncl) in chosen:
+            if thorough and not left(0.72):
+                R.notes.append("single-fault stage stopped by the time budget")
+                break
             every = thorough and len(case["ops"]) <= 3
             for flt in single_faults(nc, ns, nr, ncl, rng, every):
                 seed += 1
@@ -844,7 +888,9 @@ def run(R, escalate=False):
                 R.count("source", "single-fault")
         # random longer histories, wider alphabet, 0-2 faults, injections, routes
         paths = [IP, IP + "/bp/2", IP + "/bp/1/enet/10.0.0.5/bp/0", IP + "/1/2/2/3"]
-        for _ in range(3000 if thorough else 400):
+        for _ in range(3000 if thorough else 300):
+            if thorough and not left(0.9):
+                break
             seed += 1
             logix = rng.random() < 0.5
             ops = [rng.choice(more_ops(logix, rng)) for _ in range(rng.randrange(2, 9))]
@@ -880,7 +926,9 @@ def run(R, escalate=False):
             tpl = None
             try:
                 tpl = T.TargetProc("target")
-                for _ in range(1500 if thorough else 300):
+                for _ in range(1500 if thorough else 250):
+                    if thorough and not left(1.0):
+                        break
                     seed += 1
                     run_real_case(R, tpl, seed)
             except T.TargetError as e:          # the Logix half is another vertical's work in progress
